@@ -8,7 +8,7 @@ import itertools
 from .hist_base import HistProp, module_api
 
 PROP = "C04"
-ORDINARY = ["\\Seen", "\\Flagged", "\\Answered", "\\Draft", "\\Deleted", "$Forwarded", "NonJunk", "a-b.c", "123", "kw1", "\\seen", "\\FLAGGED", "\\deleted"]
+ORDINARY = ["\\Seen", "\\Flagged", "\\Answered", "\\Draft", "\\Deleted", "$Forwarded", "NonJunk", "a-b.c", "123", "kw1", "\\seen", "\\FLAGGED", "\\deleted", "x:y"]
 COLLISION = ["unseen", "Seen", "replied", "flagged", "Deleted", "Draft", "Recent", "cur"]
 COLLISION_RELATED = set(COLLISION) | {"\\Seen", "\\Answered", "\\Flagged", "\\Deleted", "\\Draft", "\\Recent"}
 
@@ -126,6 +126,9 @@ def classify(wit):
                            "seen-and-unseen-together", "seen-unseen-not-complementary-on-disk", "recent-changed-by-store") and used & set(COLLISION):
         if not diff or diff <= COLLISION_RELATED:
             return "C04-mh-sequence-name-aliases-system-flag"
+    if wit.get("kind") == "store-set-recent" and "Recent" in set(d.get("store_flags") or []):
+        # the STORE itself named the keyword `Recent`, which aliases the MH sequence of that name
+        return "C04-mh-sequence-name-aliases-system-flag"
     return None
 
 
